@@ -131,6 +131,20 @@ def main():
                                                    m.group(0) if m else ''))
             if failed:
                 rc = max(rc, 1)
+                # counterexample: the word k of the failing trace (Kani concrete playback); its 8 bytes in memory
+                # order ARE an 8-byte chunk of a literal - if they are ASCII, the literal is replayed through
+                # from_str on the real crate by lib/report.py
+                try:
+                    p2 = subprocess.run(cmd + ['-Z', 'concrete-playback', '--concrete-playback=print'], cwd=dst, env=env,
+                                        stdout=subprocess.PIPE, stderr=subprocess.STDOUT, text=True, timeout=900)
+                    mv = re.search(r'concrete_vals: Vec<Vec<u8>> = vec!\[\s*(?://[^\n]*\n\s*)?vec!\[([0-9, ]*)\]', p2.stdout)
+                    if mv:
+                        bs = bytes(int(x) for x in mv.group(1).split(',') if x.strip())
+                        results[h]['word'] = int.from_bytes(bs, 'little')
+                        if len(bs) == 8 and all(0x20 <= b < 0x7f for b in bs):
+                            results[h]['cex'] = {'op': 'from_str', 'lhs': 's:' + bs.hex()}
+                except Exception as ex:  # no counterexample: the violation is still reported
+                    results[h]['cex_error'] = str(ex)[:200]
                 if not as_json:
                     print('\n'.join(l for l in out.splitlines() if 'FAILURE' in l or 'Failed Checks' in l))
             elif not ok:
